@@ -115,6 +115,30 @@ func c07Jobs(x *mon.Ctx, base *world.World) []*world.Case {
 			emit(w, f.name+"-value-bit-outside-mask", fmt.Sprint("bit", bit), "reject")
 		}
 	}
+	// the report differs from the identity in TWO covered bits that sit at the same position of different bytes / 16- / 32- /
+	// 64-bit words (differences that cancel under xor-folding, byte sums, word-wise accumulation ...)
+	for _, f := range []struct {
+		name     string
+		off, len int
+	}{{"miscselect", 0x10, 4}, {"attributes", 0x30, 16}} {
+		n := 0
+		for _, stride := range []int{8, 16, 32, 64} {
+			for b1 := 0; b1+stride < f.len*8; b1++ {
+				if f.name == "attributes" && (b1*7+stride)%5 != 0 && stride != 32 {
+					continue // sample for the 128-bit field; every pair of 32-bit words at every position is kept
+				}
+				for b2 := b1 + stride; b2 < f.len*8; b2 += stride {
+					w := base.Clone()
+					fullID(w)
+					w.Q.QeReport[f.off+b1/8] ^= 1 << uint(b1%8)
+					w.Q.QeReport[f.off+b2/8] ^= 1 << uint(b2%8)
+					w.Q.SignQE(w.PKI.Leaf.Key)
+					emit(w, f.name+"-two-bits-same-position", fmt.Sprintf("bit%d+bit%d", b1, b2), "reject")
+					n++
+				}
+			}
+		}
+	}
 	// MRSIGNER: every bit of the report's value flipped (re-signed)
 	for bit := 0; bit < 256; bit++ {
 		w := base.Clone()
@@ -358,6 +382,24 @@ func c07Base(r *mrand.Rand) *world.World {
 	return world.Honest(r, world.HonestOpts{Shape: world.QuoteShape{AuthLen: 32}, Platform: p})
 }
 
+// c07Boundary: honest worlds whose QE product id / ISVSVN sit at the ends of their range must be accepted.
+func c07Boundary(x *mon.Ctx) {
+	n := 0
+	for _, prod := range []uint16{0, 1, 255, 256, 65535} {
+		for _, svn := range []uint16{0, 1, 255, 256, 65535} {
+			r := x.Rand(fmt.Sprint("boundary", n))
+			n++
+			p := world.RandPlatform(r)
+			p.QeIsvProdID, p.QeIsvSvn = prod, svn
+			w := world.Honest(r, world.HonestOpts{Shape: world.QuoteShape{AuthLen: 32}, Platform: p})
+			c := w.Case(world.LColl, "honest-boundary-prodid-isvsvn", fmt.Sprintf("isvprodid=%d,isvsvn=%d", prod, svn))
+			c.Expect, c.Form = "accept", mon.Forms[n%4]
+			check(x, n, c)
+		}
+	}
+	x.Require("honest-boundary-prodid-isvsvn", 25, 0, 25)
+}
+
 func c07(x *mon.Ctx) {
 	if !x.Quick() {
 		defer func() {
@@ -402,6 +444,9 @@ func c07(x *mon.Ctx) {
 		x.Each(len(vj), func(i int) { check(x, i, vj[i]) })
 	})
 	x.Require("verbose/levels-2", 40, 380, 441)
+	c07Boundary(x)
+	x.Require("attributes-two-bits-same-position", 0, 200, 200)
+	x.Require("miscselect-two-bits-same-position", 0, 40, 40)
 	x.Require("miscselect-bit-covered-by-mask", 0, 32, 32)
 	x.Require("miscselect-bit-hidden-by-mask", 32, 0, 32)
 	x.Require("attributes-bit-covered-by-mask", 0, 128, 128)
